@@ -3,6 +3,7 @@ package c16
 import (
 	"bytes"
 	"fmt"
+	"os"
 	"strings"
 
 	"verifharness/internal/core"
@@ -307,6 +308,10 @@ func checkBroken(r *core.Run, c stmtCase) {
 func run(r *core.Run) {
 	r.Rule = "statements = templates (one per literal position: select list, conditions, IN, BETWEEN, LIKE, function arguments, VALUES rows, SET, LIMIT/OFFSET, HAVING, sub-selects, unions, RETURNING, EXECUTE …) × literal spellings (single/double quoted, escapes, E'', casts, integers incl. negative/huge/leading zero, decimals, exponents, X'', 0x, b'') with a unique marker per literal, both dialects; boundary: dedup threshold 256, colliding bind names; malformed: statements the parser rejects. A case is non-trivial when the statement holds ≥ 1 literal; distinct by statement text"
 	rd := r.Rand
+	if os.Getenv("VERIF_C16_ONLY") == "sessions" { // development aid: the session stream alone
+		runSessions(r)
+		return
+	}
 
 	// 0. regression corpus: witnesses of the defects found (fixed or known) run first
 	for i, w := range regressionCorpus {
@@ -425,6 +430,12 @@ func run(r *core.Run) {
 		r.Begin("broken:"+d+":"+stmt, true, "stream:malformed", "pos:broken")
 		checkBroken(r, stmtCase{dialect: d, pos: "broken", stmt: stmt, markers: ms, spellings: ss})
 	}
+	// 6. real sessions through the real proxies under the full log capture
+	runSessions(r)
+
+	// 7. the two functions that take the value out of an error text (repo patches 81, 82)
+	runErrTexts(r)
+
 	for _, t := range append(append([]Template{}, Templates...), SpecialTemplates...) {
 		if accepted[t.Pos] == 0 {
 			panic("harness: C16 generator: template " + t.Pos + " was never accepted by the parser: " + t.Text)
